@@ -85,4 +85,4 @@ theorem path_proof_sound (hs : H.Sound) (L : Nat) (S : List (Key × VH)) (hc : C
   · simp [Verified.confirmValue, Verified.confirmNonexistence, hin]
 
 end Nomt
-#print axioms Nomt.path_proof_sound
+
